@@ -53,7 +53,7 @@ fn statement_dependencies(statement: &Statement) -> BTreeSet<usize> {
     }
 }
 
-fn ty_dependency(ty: &Type) -> BTreeSet<usize> {
+pub(crate) fn ty_dependency(ty: &Type) -> BTreeSet<usize> {
     match &ty {
         Type::UserType(r, t, _) => {
             let mut deps = t
@@ -256,4 +256,58 @@ pub(crate) fn initialization_order<'a>(
     }
 
     return order(to_order);
+}
+
+/// Orders the type declarations (blobs and enums) so that a type comes after the types its
+/// fields and variants name - a declaration is checked with the ones it mentions already known.
+/// Types that name each other (or themselves) keep their source order.
+pub(crate) fn order_type_declarations(types: Vec<Statement>) -> Vec<Statement> {
+    let var_of = |s: &Statement| match s {
+        Statement::Blob { var, .. } | Statement::Enum { var, .. } => Some(*var),
+        _ => None,
+    };
+    let mentioned = |s: &Statement| -> BTreeSet<usize> {
+        match s {
+            Statement::Blob { fields, .. } => {
+                fields.values().map(|(_, ty)| ty_dependency(ty)).flatten().collect()
+            }
+            Statement::Enum { variants, .. } => {
+                variants.values().map(|(_, ty)| ty_dependency(ty)).flatten().collect()
+            }
+            _ => BTreeSet::new(),
+        }
+    };
+    let index_of: BTreeMap<usize, usize> = types
+        .iter()
+        .enumerate()
+        .filter_map(|(i, s)| var_of(s).map(|v| (v, i)))
+        .collect();
+
+    fn visit(
+        i: usize,
+        types: &Vec<Statement>,
+        index_of: &BTreeMap<usize, usize>,
+        mentioned: &dyn Fn(&Statement) -> BTreeSet<usize>,
+        state: &mut Vec<u8>,
+        order: &mut Vec<usize>,
+    ) {
+        if state[i] != 0 {
+            return;
+        }
+        state[i] = 1;
+        for dep in mentioned(&types[i]) {
+            if let Some(j) = index_of.get(&dep) {
+                visit(*j, types, index_of, mentioned, state, order);
+            }
+        }
+        state[i] = 2;
+        order.push(i);
+    }
+
+    let mut state = vec![0u8; types.len()];
+    let mut order = Vec::new();
+    for i in 0..types.len() {
+        visit(i, &types, &index_of, &mentioned, &mut state, &mut order);
+    }
+    order.into_iter().map(|i| types[i].clone()).collect()
 }
